@@ -10,7 +10,9 @@ LEVEL = "exploration"
 RULE = ("per suite and decoder (6 messages, password file, server setup, 3 in-flight states): valid encodings from "
         "real runs, then every length 0..len+64 (truncation; extension by zeros / random bytes / a second valid "
         "encoding), all 256 values of the first and last byte of every group-element and scalar field, single-byte "
-        "substitutions at every offset, and crafted non-reduced field elements / scalars and alternative SEC1 tags; "
+        "substitutions at every offset, and crafted non-reduced field elements / scalars and alternative SEC1 tags; the "
+        "server setup decoder also with externally held keys (serialized key field of Nsk, 12 and 80 bytes): round trip and "
+        "every length 0..len+64; "
         "non-trivial = the mutated string was accepted by the decoder (so the re-encoding criterion was actually "
         "evaluated); distinct = distinct (suite, decoder, mutation) triples")
 ASSUMPTIONS = ["criterion is the statement's own: accept implies re-encode == input", "held on the inputs tried only"]
@@ -292,6 +294,44 @@ def run_job(job):
                                 stats["alias_probes"] += 1
                                 probe(kind, v[:off] + al + v[off + ln:], "%s := 1 + order" % name)
             s.cmd("drop", names=["a", "b", "tmp"])
+        # (f) the server setup decoder instantiated with externally held keys (ServerSetup<CS, S>): its encoding is
+        # seed || S::serialize() || stand-in key with S::Len = Nsk (ExtKey), 12 and 80 bytes (HndKey handles). One fixed
+        # length, encode-then-decode is the identity, every other length is refused.
+        if worlds:
+            xsk = s.cmd("g_derive", seed=(proto.H("c10x", su, job["seed"]) * 3)[:sz.nsk])
+            for kind, mk, hlen in (("setupx", dict(ext=True), sz.nsk), ("setuphs", dict(hnd="short"), 12), ("setuphl", dict(hnd="long"), 80)):
+                rng = s.rng("xr", proto.H("c10xr", su, job["seed"]))
+                st = s.cmd("setup_new_with_key", rng=rng, sk=bytes.fromhex(xsk.sk), out="xs", **mk)
+                evals += 1
+                if not st.ok:
+                    viol.append({"sig": "C10 %s cannot be built" % kind, "what": "%s: %s" % (su, dict(st))})
+                    continue
+                v = bytes.fromhex(st.ser)
+                if len(v) != sz.nh + hlen + sz.nsk:
+                    viol.append({"sig": "C10 %s encoding has the wrong length" % kind, "what": "%s: %d bytes, layout says %d+%d+%d" % (su, len(v), sz.nh, hlen, sz.nsk)})
+                r = s.de(kind, v, out="a")
+                stats["roundtrips"] += 1
+                if not r.ok:
+                    viol.append({"sig": "C10 %s: decode(encode(o)) fails" % kind, "what": "%s: %s::deserialize refuses the %d bytes its own serialize produced: %s" % (
+                        su, kind, len(v), r.get("err") or r.get("panic"))})
+                    continue
+                if bytes.fromhex(r.re) != v:
+                    viol.append({"sig": "C10 %s valid encoding re-encodes differently" % kind, "what": "%s: %s -> %s" % (su, v.hex(), r.re)})
+                for L in range(0, len(v)):
+                    probe(kind, v[:L], "truncated to %d" % L)
+                    stats["len_probes"] += 1
+                for ext in range(1, 65):
+                    probe(kind, v + bytes(ext), "extended by %d zero bytes" % ext)
+                    stats["len_probes"] += 1
+                for o_ in (0, sz.nh, sz.nh + hlen, len(v)):
+                    probe(kind, v[:o_] + b"\x00" + v[o_:], "byte 0x00 inserted at offset %d" % o_)
+                    if o_ < len(v):
+                        probe(kind, v[:o_] + v[o_ + 1:], "byte at offset %d removed" % o_)
+                # the direct-key layout (two Nsk-byte key fields) is not an encoding of a handle-key setup
+                if hlen != sz.nsk:
+                    probe(kind, worlds[0]["setup"], "a direct-key setup encoding (key field of Nsk bytes)")
+                stats["ext_setup_decoders"] = stats.get("ext_setup_decoders", 0) + 1
+            s.cmd("drop", names=["a", "xs", "tmp"])
         if worlds:
             samples.append({"suite": su, "decoder": "cresp", "valid": worlds[0]["cresp"].hex(),
                             "mutation_examples": ["truncated to %d" % (len(worlds[0]["cresp"]) - 1), "extended by 1 zero bytes",
@@ -308,4 +348,9 @@ def floors(tier, stats, results):
             out.append("decoder %s: fewer than 20 rejected probes observed" % k)
     if stats.get("roundtrips", 0) < 20 * 11:
         out.append("fewer than one round trip per suite and decoder")
+    if stats.get("ext_setup_decoders", 0) < 20 * 3:
+        out.append("external-key server setup decoders (3 key kinds) not exercised on every suite")
+    for k in ("setupx", "setuphs", "setuphl"):
+        if stats.get("by_decoder", {}).get(k, {}).get("rejected", 0) < 20:
+            out.append("decoder %s: fewer than 20 rejected probes observed" % k)
     return out
